@@ -50,6 +50,7 @@ def genHex15 (seed : Nat) (maxLen : Nat) (randomCases : Nat) : Array String := I
         for e in idx do
           out := out.push s!"hex range {h} {s} {e}"
           out := out.push s!"hex rangeincl {h} {s} {e}"
+          if s ≤ e then out := out.push s!"hex rangeinclx {h} {s} {e}"
   -- equality over all pairs of a subset of the representations
   let sub := allReps.toList.filter (fun h => h.length < 24)
   for a in sub do
